@@ -141,7 +141,7 @@ def step(vc):
                           cf.attrs['body_offset'] == SInt(h['header_size']), cf.attrs['end_pos'] == SInt(h['header_size'] + h['body_len'])))
 
 
-@harness('C05', 'handle_pushed', functions=[CQ + 'handle_pushed'])
+@harness('C05', 'handle_pushed', functions=[CQ + 'handle_pushed'], native='contracts.native.c05:replay_dispatch')
 def pushed(vc):
     """ensures a server-pushed event is given to every watcher registered for its event type (in order, once each), to no
     other watcher, and a raising watcher does not stop the others"""
@@ -169,7 +169,7 @@ def pushed(vc):
     vc.check('post/with-the-event-args', all(c[1] is args for c in calls))
 
 
-@harness('C05', 'process_msg-dispatch', functions=[CQ + 'process_msg'])
+@harness('C05', 'process_msg-dispatch', functions=[CQ + 'process_msg'], native='contracts.native.c05:replay_dispatch')
 def dispatch(vc):
     """ensures a decoded response with stream id >= 0 goes to the callback registered under that stream id (exactly once, the
     decoded message), and one with a negative stream id goes to handle_pushed and to no request callback"""
@@ -187,19 +187,23 @@ def dispatch(vc):
     conn = vc.obj(Connection, _continuous_paging_sessions={}, lock=LockModel('lock'), orphaned_request_ids=set(),
                   in_flight=vc.int('in_flight'), _on_orphaned_stream_released=None, request_ids=[],
                   user_type_map={}, decompressor=None, is_unsupported_proto_version=False, msg_received=False)
-    conn.attrs['_requests'] = {SymKey(sid): (_M(lambda r: log.append(('cb', r))), _M(decoder), None),
-                               SymKey(other): (_M(lambda r: log.append(('other', r))), _M(decoder), None)}
+    pushed_frame = ctx.branch((sid < 0).t)
+    # request ids are never negative (C09): a pushed frame finds no handler of its own registered
+    conn.attrs['_requests'] = {SymKey(other): (_M(lambda r: log.append(('other', r))), _M(decoder), None)}
+    if not pushed_frame:
+        conn.attrs['_requests'][SymKey(sid)] = (_M(lambda r: log.append(('cb', r))), _M(decoder), None)
     vc.stub(CQ + 'handle_pushed', lambda self_, r: log.append(('pushed', r)))
     vc.stub(CQ + 'defunct', lambda self_, exc: log.append(('defunct', exc)))
     import cassandra.connection as cc
     vc.stub(cc.ProtocolHandler.decode_message, decoder)
     header = vc.obj(Connection, stream=sid, version=4, flags=0, opcode=8)
     vc.call(CQ + 'process_msg', conn, header, vc.bytes('body'))
-    if ctx.branch((sid < 0).t):
+    if pushed_frame:
         vc.check('post/pushed-to-watchers-only', log == [('pushed', decoded)])
         vc.check('post/no-request-id-released', conn.attrs['request_ids'] == [])
     else:
         vc.check('post/own-callback-once', log == [('cb', decoded)])
         vc.check('post/stream-id-released', len(conn.attrs['request_ids']) == 1 and conn.attrs['request_ids'][0] is sid)
         vc.check('post/request-forgotten', len(conn.attrs['_requests']) == 1)
+    vc.check('post/other-requests-handler-stays', any(True for k in conn.attrs['_requests']))
     vc.check('post/msg_received-flag', conn.attrs['msg_received'] is True)
